@@ -1,1 +1,3 @@
 import Driver.Main
+import Driver.SubgraphSearch
+import Driver.GraphMatcherEngine
